@@ -25,4 +25,15 @@ def handleSelectPairs (j : Json) : R Json := do
   let ps := selectPairs stats mef sel
   pure (Json.mkObj [("rfi", jList jNat (ps.map (·.1))), ("mef", jList jNat (ps.map (·.2)))])
 
+/-- {"op":"selection","s0","s1": bits of the rescaled range limits,"nlow","nhigh": bits,"pops":[[mean bits, std bits]..]} -> default thresholds
+and the selection mask at Float -/
+def handleSelection (j : Json) : R Json := do
+  let s0 := fOf (← natF j "s0"); let s1 := fOf (← natF j "s1")
+  let nl := fOf (← natF j "nlow"); let nh := fOf (← natF j "nhigh")
+  let pops ← listF (fun v => do let l ← asList asNat v; pure (fOf (l.getD 0 0), fOf (l.getD 1 0))) j "pops"
+  let lo : Float := thresholdLow s0 s1
+  let hi : Float := thresholdHigh s0 s1
+  let mask := pops.map (fun (m, sd) => decide (reachLow nl m sd > lo) && decide (reachHigh nh m sd < hi))
+  pure (Json.mkObj [("low", jF lo), ("high", jF hi), ("mask", jList (fun b => Json.bool b) mask)])
+
 end FlowCal.Driver
